@@ -106,6 +106,36 @@ class Defs:
         return d[0] if len(d) == 1 else None
 
 
+def scoped_defs(node, defs):
+    """definitions of the Name/Attribute `node`, honouring comprehension and lambda scopes"""
+    key = node.id if isinstance(node, ast.Name) else dotted(node) if isinstance(node, ast.Attribute) else None
+    if key is None:
+        return None, []
+    if isinstance(node, ast.Name):
+        n = getattr(node, '_parent', None)
+        while n is not None and n is not defs.fn:
+            if isinstance(n, (ast.ListComp, ast.GeneratorExp, ast.SetComp, ast.DictComp)):
+                for gen in n.generators:
+                    for t in ast.walk(gen.target):
+                        if isinstance(t, ast.Name) and t.id == key:
+                            return key, [(gen.iter, 'elem')]
+            elif isinstance(n, ast.Lambda):
+                if any(a.arg == key for a in n.args.args):
+                    return key, [(n, 'lambda-param')]
+            n = getattr(n, '_parent', None)
+    ds = defs.defs.get(key, [])
+    # drop bindings that belong to comprehension scopes elsewhere in the function
+    out = []
+    for v, sel in ds:
+        if sel == 'lambda-param':
+            continue
+        par = getattr(v, '_parent', None)
+        if isinstance(par, ast.comprehension) and par.iter is v:
+            continue
+        out.append((v, sel))
+    return key, out
+
+
 def depends(expr, pred, defs, depth=8, control=False):
     """does expr, expanded through local definitions, contain a node
     satisfying pred?  pred gets an ast node."""
@@ -118,42 +148,53 @@ def depends(expr, pred, defs, depth=8, control=False):
         if d <= 0:
             return False
         for x in ast.walk(e):
-            key = None
-            if isinstance(x, ast.Name):
-                key = x.id
-            elif isinstance(x, ast.Attribute):
-                key = dotted(x)
-            if key and key not in seen and key in defs.defs:
-                seen.add(key)
-                for v, sel in defs.defs[key]:
-                    if isinstance(v, ast.Lambda):
-                        continue
-                    if rec(v, d - 1):
+            if not isinstance(x, (ast.Name, ast.Attribute)):
+                continue
+            key, ds = scoped_defs(x, defs)
+            if not key or not ds:
+                continue
+            mark = (key, id(ds[0][0]))
+            if mark in seen:
+                continue
+            seen.add(mark)
+            for v, sel in ds:
+                if isinstance(v, ast.Lambda):
+                    continue
+                if rec(v, d - 1):
+                    return True
+            if control:
+                for t in defs.ctrl.get(key, []):
+                    if rec(t, d - 1):
                         return True
-                if control:
-                    for t in defs.ctrl.get(key, []):
-                        if rec(t, d - 1):
-                            return True
         return False
     return rec(expr, depth)
 
 
-def expand(expr, defs, depth=6):
-    """all expressions reachable from expr through local defs (incl. expr)"""
+def expand(expr, defs, depth=6, roots=None):
+    """all expressions reachable from expr through local defs (incl. expr);
+    `roots` (a set) receives the names that have no local definition"""
     out, seen = [expr], set()
 
     def rec(e, d):
-        if d <= 0:
-            return
         for x in ast.walk(e):
-            key = x.id if isinstance(x, ast.Name) else dotted(x) if isinstance(x, ast.Attribute) else None
-            if key and key not in seen and key in defs.defs:
-                seen.add(key)
-                for v, sel in defs.defs[key]:
-                    if isinstance(v, ast.Lambda):
-                        continue
-                    out.append(v)
-                    rec(v, d - 1)
+            if not isinstance(x, (ast.Name, ast.Attribute)):
+                continue
+            key, ds = scoped_defs(x, defs)
+            if not key:
+                continue
+            if not ds:
+                if roots is not None and isinstance(x, ast.Name):
+                    roots.add(key)
+                continue
+            mark = (key, id(ds[0][0]))
+            if mark in seen or d <= 0:
+                continue
+            seen.add(mark)
+            for v, sel in ds:
+                if isinstance(v, ast.Lambda):
+                    continue
+                out.append(v)
+                rec(v, d - 1)
     rec(expr, depth)
     return out
 
